@@ -12,7 +12,7 @@ var allKinds = []string{"create", "create", "update", "stop"}
 
 var biases = map[string]Bias{
 	"C01": {Kinds: allKinds, Collide: 75, Release: 15, Populated: 20, Updates: 45, IgnoreFlags: 10, NearMiss: 10, MaxPar: 4},
-	"C02": {Kinds: allKinds, Collide: 0, Release: 45, Populated: 50, Updates: 50, IgnoreFlags: 0, NearMiss: 50, MaxPar: 1},
+	"C02": {Kinds: allKinds, Collide: 0, Release: 45, Populated: 50, Updates: 50, IgnoreFlags: 0, NearMiss: 50, MaxPar: 1, ReleaseBehindDrop: 15},
 	"C03": {Kinds: []string{"create"}, Collide: 0, Release: 50, Populated: 30, Updates: 10, IgnoreFlags: 0, Append: 35, NearMiss: 15, MaxPar: 1},
 	"C04": {Kinds: []string{"create", "create", "update"}, Collide: 5, Release: 40, Populated: 30, Updates: 60, IgnoreFlags: 20, Append: 25, NearMiss: 15, MaxPar: 1},
 	"C05": {Kinds: []string{"create", "update", "update", "stop"}, Collide: 35, Release: 5, Populated: 40, Updates: 90, IgnoreFlags: 60, NearMiss: 25, MaxPar: 1},
